@@ -23,6 +23,13 @@ Typed ==
   \cup { <<"vec_str", <<"arr", <<JS(<<34, 208, 159>>), JS(<<>>)>>>>>>,
          <<"map_str_i32", <<"map", <<<<JS(<<97>>), JU(1)>>, <<JS(<<208, 159>>), JU(300)>>>>>>>>,
          <<"map_i32_str", <<"map", <<<<JU(-5), JS(<<120>>)>>, <<JU(200), JS(<<121>>)>>>>>>>> }
+  \* further std types (serialized like a base type, see LoadScript!TypeAlias)
+  \cup { <<"opt_i32", JU(5)>>, <<"uptr_i32", JU(-3)>>, <<"atomic_i32", JU(100)>>, <<"sptr_str", JS(<<120, 121>>)>>, <<"wstr", JS(<<208, 159, 120>>)>>,
+         <<"enum_color", JS(<<71, 114, 101, 101, 110>>)>>, <<"enum_color", JS(<<66, 108, 117, 101>>)>>,
+         <<"set_i32", <<"arr", <<JU(-3), JU(1), JU(40)>>>>>>, <<"arr3_i32", <<"arr", <<JU(1), JU(2), JU(3)>>>>>>, <<"deque_i32", <<"arr", <<JU(7), JU(-1)>>>>>>,
+         <<"list_str", <<"arr", <<JS(<<120>>), JS(<<121, 122>>)>>>>>>,
+         <<"pair_str_i32", <<"map", <<<<JS(<<107, 101, 121>>), JS(<<107>>)>>, <<JS(<<118, 97, 108, 117, 101>>), JU(9)>>>>>>>>,
+         <<"tuple_i32_str_f64", <<"arr", <<JU(1), JS(<<113>>), <<"f64", B8(63,248,0,0,0,0,0,0)>>>>>>>> }
 
 Leaf(tv) == [k |-> "leaf", t |-> tv[1], v |-> tv[2]]
 ReqOp(key, tv) == [op |-> "req", ks |-> key, t |-> tv[1], v |-> tv[2]]
